@@ -1,0 +1,14 @@
+//go:build verif
+
+package pipeline
+
+// verifHook is set by verification harnesses (builds with the `verif` tag only) to observe or
+// delay named points inside critical windows. It must be set before the goroutines that reach the
+// points are started.
+var verifHook func(point string)
+
+func verifPoint(point string) {
+	if h := verifHook; h != nil {
+		h(point)
+	}
+}
